@@ -393,7 +393,7 @@ def run(tier, seed):
         lens = [1, 2, 3, 4, 5, 6, 7, 8, 9, 10, 100]
         nd = 40
     else:
-        variants = [('release', 1.0), ('dev', 1.0), ('std', 0.3)]
+        variants = [('release', 1.0), ('dev', 1.0), ('std', 0.3), ('nightly', 0.3)]
         lens = [1, 2, 3, 4, 5, 6, 7, 8, 9, 10, 100, 10000]
         nd = 400
     try:
